@@ -19,10 +19,11 @@ structure Cfg where
   reportIfFirst : Bool        -- an error is reported only by the path that won the once
   farewellInsideOnce : Bool   -- CloseDataConnection writes its close frame after marking the connection closed
   readerRechecks : Bool       -- the read pump tests the closed flag again after a read returned, before it looks at the result
+  writeWaits : Bool           -- Write leaves its select only through the queue or the close channel (no default, no timeout)
   deriving DecidableEq, Repr
 
-def Cfg.fixed : Cfg := { pumpClosesQueue := false, writeSelectsClose := true, shutdownAlways := true, reportIfFirst := true, farewellInsideOnce := true, readerRechecks := true }
-def Cfg.pinned : Cfg := { pumpClosesQueue := true, writeSelectsClose := false, shutdownAlways := false, reportIfFirst := false, farewellInsideOnce := false, readerRechecks := true }
+def Cfg.fixed : Cfg := { pumpClosesQueue := false, writeSelectsClose := true, shutdownAlways := true, reportIfFirst := true, farewellInsideOnce := true, readerRechecks := true, writeWaits := true }
+def Cfg.pinned : Cfg := { pumpClosesQueue := true, writeSelectsClose := false, shutdownAlways := false, reportIfFirst := false, farewellInsideOnce := false, readerRechecks := true, writeWaits := true }
 
 abbrev Msg := Nat
 
@@ -62,6 +63,7 @@ structure S where
   localClosing : Bool := false      -- a deliberate local close has begun (its close frame is on the wire)
   reportsAfterLocal : Nat := 0      -- error reports issued although a local close had begun
   rets : List (Bool × Bool) := []   -- (flag set at entry, returned nil) per finished Write
+  refusedOpen : Nat := 0            -- Writes that returned an error although the connection was not closed
   panicked : Bool := false
   deriving Repr
 
@@ -70,6 +72,7 @@ inductive Act
   | wCheck                  -- closed check
   | wSend                   -- the queue case of the select (or the plain send)
   | wClosed                 -- the close-channel case of the select
+  | wGiveUp                 -- any other way out of the select (a default or timeout case), if the design has one
   | pumpTake | pumpCheck | pumpWrite (ok : Bool) | pumpExit
   | rStart | rReturn | rCheck | rDeliver
   | rReturnBuf              -- the read returns data the library had already taken from the socket, closed or not
@@ -132,6 +135,13 @@ def step (c : Cfg) (s : S) : Act → S
     match s.inside with
     | some (_, .atSelect, f) =>
       if c.writeSelectsClose && s.closeCh then { s with inside := none, rets := (f, false) :: s.rets } else s
+    | _ => s
+  | .wGiveUp =>
+    match s.inside with
+    | some (_, .atSelect, f) =>
+      if c.writeWaits then s
+      else { s with inside := none, rets := (f, false) :: s.rets,
+                    refusedOpen := if s.closed then s.refusedOpen else s.refusedOpen + 1 }
     | _ => s
   | .pumpTake =>
     match s.pump, s.queue with
